@@ -146,7 +146,15 @@ def _eval_in(col, case, d):
         img.header.set_qform(A, code=1)
         img.header.set_sform(stale, code=0)
         img = nibabel.Nifti1Image(arr, None, img.header)
+    if case.get("big_endian"):
+        img = nibabel.Nifti1Image(np.asarray(img.dataobj), None,
+                                  img.header.as_byteswapped(">"))
+        if sc is not None:
+            img.header.set_slope_inter(*sc)
     nibabel.save(img, path)
+    if case.get("big_endian"):
+        with open(path, "rb") as f:
+            assert f.read(4) == b"\x00\x00\x01\x5c", "not big-endian"
     # the reference is the affine the FILE states (NIfTI stores it in
     # float32), not the float64 matrix it was built from
     A = np.array(nibabel.load(path).affine, dtype=float)
@@ -474,6 +482,17 @@ def cases(tier):
             c2 = dict(c)
             c2["via_cli"] = True
             out.append(c2)
+    # files stored in the other byte order (big-endian NIfTI, as written on
+    # or for other machines): every stored type x scaling x options on one
+    # direction, every third case elsewhere
+    n = 0
+    for c in list(out):
+        if c["kind"] != "layout" or c["layout"] == "rgb" \
+                or c.get("via_cli"):
+            continue
+        n += 1
+        if c["direction"] == three[1][0] or n % 3 == 0:
+            out.append(dict(c, big_endian=True))
     return out
 
 
